@@ -554,6 +554,110 @@ impl Family for ThroughBinary {
 }
 
 
+/// The arguments of a generator that cannot be started must not reach the generators configured after (or before)
+/// it: every generator that does start receives the shared request followed by its own arguments and nothing else.
+pub struct AmongFailingGenerators {
+    lists: Vec<Vec<(String, String)>>,
+}
+impl AmongFailingGenerators {
+    pub fn new() -> Self {
+        let t = |v: &[(&str, &str)]| -> Vec<(String, String)> { v.iter().map(|(k, v)| (k.to_string(), v.to_string())).collect() };
+        AmongFailingGenerators { lists: vec![t(&[]), t(&[("k", "v")]), t(&[("k", "1"), ("k", "2")]), t(&[("a,b", "c=d"), ("é", "")])] }
+    }
+}
+const AF_KINDS: [&str; 3] = ["missing executable", "file without the executable bit", "a directory"];
+impl Family for AmongFailingGenerators {
+    fn name(&self) -> String {
+        "among-failing-generators/three -G options, one of which cannot be started (missing, not executable, a directory) at position 0 / 1 / 2 x 4 argument lists for it x 4 x 4 argument lists for the two capturing generators".into()
+    }
+    fn len(&self) -> u64 {
+        3 * 3 * 4 * 16
+    }
+    fn hang_secs(&self) -> f64 {
+        120.0
+    }
+    fn describe(&self, idx: u64) -> Value {
+        let (kind, pos, fl, a, b) = (idx % 3, (idx / 3) % 3, (idx / 9) % 4, (idx / 36) % 4, idx / 144);
+        json!({"generator_that_cannot_start": AF_KINDS[kind as usize], "its_position": pos, "its_arguments": self.lists[fl as usize], "arguments_of_the_capturing_generators": [self.lists[a as usize].clone(), self.lists[b as usize].clone()]})
+    }
+    fn run(&self, idx: u64) -> CaseOut {
+        use crate::proc::{encode_arguments, encode_reply, gen_spec, request_has_operation_name, run, Gen, Install, Node, Scenario, Script, Step};
+        let (kind, pos, fl, a, b) = (idx % 3, ((idx / 3) % 3) as usize, (idx / 9) % 4, (idx / 36) % 4, idx / 144);
+        let own = [&self.lists[a as usize], &self.lists[b as usize]];
+        let mut out = CaseOut::new(hash_str(&format!("c19af{idx}")));
+        out.validated = 1;
+        out.nontrivial = true;
+        let fam = "c19/among-failing-generators";
+        let mut sc = Scenario::default();
+        sc.tree.push(("a.slice".into(), Node::File(b"module M\nstruct S { x: int32 }\n".to_vec())));
+        sc.argv.push("a.slice".into());
+        sc.gens.push(Gen { name: "g0".into(), install: Install::Script(Script(vec![Step::ReadAll, Step::Stdout(encode_reply(&[], &[])), Step::Exit(0)])) });
+        sc.gens.push(Gen { name: "g1".into(), install: Install::Script(Script(vec![Step::ReadAll, Step::Stdout(encode_reply(&[], &[])), Step::Exit(0)])) });
+        let failing_path = match kind {
+            0 => {
+                sc.gens.push(Gen { name: "nowhere".into(), install: Install::Missing });
+                "{gen2}".to_string()
+            }
+            1 => {
+                sc.gens.push(Gen { name: "plainfile".into(), install: Install::NotExecutable });
+                "{gen2}".to_string()
+            }
+            _ => {
+                sc.tree.push(("adir".into(), Node::Dir));
+                "{work}/adir".to_string()
+            }
+        };
+        let mut specs = vec![gen_spec("{gen0}", own[0]), gen_spec("{gen1}", own[1])];
+        specs.insert(pos, gen_spec(&failing_path, &self.lists[fl as usize]));
+        for sp in specs {
+            sc.argv.push("-G".into());
+            sc.argv.push(sp);
+        }
+        let o = run(&sc, std::time::Duration::from_secs(30));
+        let desc = || format!("argv {:?}\nexit {:?} stderr {}", sc.argv, o.exit_code, o.stderr_text());
+        if o.timed_out || o.signal.is_some() || o.panic_location().is_some() {
+            out.violate(format!("{fam}/crash-or-hang"), desc());
+            return out;
+        }
+        let mut prefixes: Vec<Vec<u8>> = vec![];
+        for (gi, l) in own.iter().enumerate() {
+            let Some(stdin) = o.gens.get(gi).and_then(|g| g.stdin.clone()) else {
+                out.violate(format!("{fam}/generator-not-run"), desc());
+                return out;
+            };
+            let suffix = encode_arguments(l);
+            if stdin.len() < suffix.len() || stdin[stdin.len() - suffix.len()..] != suffix[..] {
+                let tail = &stdin[stdin.len().saturating_sub(suffix.len() + 8)..];
+                out.violate(format!("{fam}/arguments-changed-on-the-way-to-the-generator"), format!("capturing generator {gi} was given {l:?}; its stdin must end with {} but ends with {}\n{}", crate::proc::hex(&suffix[..suffix.len().min(200)]), crate::proc::hex(&tail[..tail.len().min(200)]), desc()));
+                return out;
+            }
+            prefixes.push(stdin[..stdin.len() - suffix.len()].to_vec());
+        }
+        // what precedes the own arguments is the request, and only the request: the same bytes for both, and the same
+        // bytes as when no other generator is configured (the request ends with the sequence of reference files, here
+        // empty, so anything appended to it shows as a longer prefix)
+        if prefixes[0] != prefixes[1] || !request_has_operation_name(&prefixes[0]) {
+            out.violate(format!("{fam}/foreign-bytes-between-the-request-and-the-arguments"), format!("the bytes before the own arguments differ between the two capturing generators ({} and {} bytes)\n{}", prefixes[0].len(), prefixes[1].len(), desc()));
+        }
+        static ALONE: std::sync::OnceLock<Vec<u8>> = std::sync::OnceLock::new();
+        let alone = ALONE.get_or_init(|| {
+            let mut one = Scenario::default();
+            one.tree.push(("a.slice".into(), Node::File(b"module M\nstruct S { x: int32 }\n".to_vec())));
+            one.gens.push(Gen { name: "g0".into(), install: Install::Script(Script(vec![Step::ReadAll, Step::Stdout(encode_reply(&[], &[])), Step::Exit(0)])) });
+            one.argv = vec!["a.slice".into(), "-G".into(), "{gen0}".into()];
+            let o = run(&one, std::time::Duration::from_secs(30));
+            let stdin = o.gens.get(0).and_then(|g| g.stdin.clone()).unwrap_or_default();
+            let suffix = encode_arguments(&[]);
+            stdin[..stdin.len().saturating_sub(suffix.len())].to_vec()
+        });
+        if !alone.is_empty() && prefixes[0] != *alone {
+            out.violate(format!("{fam}/foreign-bytes-between-the-request-and-the-arguments"), format!("the bytes before the own arguments ({} bytes) are not the request the same input gives with a single generator ({} bytes)\n{}", prefixes[0].len(), alone.len(), desc()));
+        }
+        out.class = format!("{}@{pos}:exit{:?}", AF_KINDS[kind as usize], o.exit_code);
+        out
+    }
+}
+
 /// Rejected specifications through the real binary: a usage error (exit status 2, a message on stderr, nothing
 /// compiled or generated), never a crash and never acceptance.
 pub struct RejectedThroughBinary {
@@ -782,6 +886,7 @@ pub fn families(tier: &str) -> Vec<Box<dyn Family>> {
         Box::new(RoundTrip::new(if quick { 2 } else { 3 })),
         Box::new(Pairs::new()),
         Box::new(ThroughBinary::new(tier)),
+        Box::new(AmongFailingGenerators::new()),
         Box::new(RejectedThroughBinary::new(if quick { 3 } else { 4 })),
     ]
 }
